@@ -129,6 +129,24 @@ func c17ServiceE2E(ctx *Ctx) {
 	if !waitClosed(2) {
 		return
 	}
+	// 3: a genuine handshake followed by an address of an unknown type: the connection IS
+	// authenticated; it is drained for as long as its client keeps it open (20 s here), and that is
+	// time with a tunnel open
+	c3, err := net.Dial("tcp", ln.Addr().String())
+	if err != nil {
+		return
+	}
+	c3.Write(ssStream(k1, genBytes(32, 4343), []byte{9, 1, 2, 3, 4, 5, 6}))
+	time.Sleep(100 * time.Millisecond) // the server has authenticated it and tried the address
+	clock = clock.Add(20 * time.Second)
+	want += 20
+	c3.(*net.TCPConn).CloseWrite()
+	c3.SetReadDeadline(time.Now().Add(2 * time.Second))
+	io.Copy(io.Discard, c3)
+	c3.Close()
+	if !waitClosed(3) {
+		return
+	}
 	clock = clock.Add(5 * time.Second)
 	mfs, _ := reg.Gather()
 	got, gotLoc := 0.0, 0.0
@@ -152,6 +170,6 @@ func c17ServiceE2E(ctx *Ctx) {
 	ctx.Count("service-e2e:runs")
 	ctx.Stats.Extra["service_e2e"] = map[string]interface{}{"echo_target": haveEcho, "expected_s": want, "tunnel_time_s": got, "per_location_s": gotLoc, "close_statuses": status}
 	if math.Abs(got-want) > 1e-6 || math.Abs(gotLoc-want) > 1e-6 {
-		ctx.Monitor("C17/refused-connection-accrued-tunnel-time", fmt.Sprintf("one genuine connection open for %.0f s and one replayed handshake (refused) held open for 30 s: tunnel_time_seconds=%.3f, per location %.3f, expected %.0f (statuses seen: %s)", want, got, gotLoc, want, status), nil)
+		ctx.Monitor("C17/service-tunnel-time-differs", fmt.Sprintf("a genuine connection, a replayed handshake (refused) held open for 30 s, an authenticated connection with an unreadable address held open for 20 s: tunnel_time_seconds=%.3f, per location %.3f, expected %.0f (statuses seen: %s)", got, gotLoc, want, status), nil)
 	}
 }
